@@ -34,7 +34,7 @@ ASSUMPTIONS = ['not judged: then-steps naming a state that does not exist, map_a
 THEN_KINDS = ['state entered', 'state not entered', 'state exited', 'state not exited', 'state active', 'state not active',
               'event fired', 'event fired with', 'event fired table', 'event not fired', 'no event fired', 'variable equals',
               'variable not equal', 'expression holds', 'expression not hold', 'final', 'not final']
-REQUIRED_COUNTERS = ['cross_event_parameter_mix', 'features_with_background', 'given_step_after_when', 'feature_files', 'scenarios', 'then_steps_checked', 'given_when_steps_checked', 'testing_predicate_checks',
+REQUIRED_COUNTERS = ['mutable_literal_parameters', 'cross_event_parameter_mix', 'features_with_background', 'given_step_after_when', 'feature_files', 'scenarios', 'then_steps_checked', 'given_when_steps_checked', 'testing_predicate_checks',
                      'blocks_without_macro_step', 'same_event_twice_in_step'] + \
     ['then_%s_%s' % (k.replace(' ', '_'), v) for k in THEN_KINDS for v in ('true', 'false')]
 
@@ -57,6 +57,9 @@ class RealCoder(build.Coder):
 
     def action(self, ch, t):
         lines = ['x = x + 1 + event.data.get("p", 0)' if t['event'] else 'x = x + 1']
+        if t['event']:
+            # a parameter that is a list is kept and changed in place: the chart owns what it was sent
+            lines += ['if "q" in event.data:', '    bag = event.q', '    bag.append(len(bag))']
         for s in t['sends']:
             if s['kind'] == 'send':
                 lines.append('send(%r, v=x, w=%r)' % (s['name'], t['id']))
@@ -116,7 +119,7 @@ def make_chart(rnd):
                                           gmod=2, grem=0, after=1, priority=0, sends=[], contracts=dict(pre=[], post=[], inv=[]),
                                           tguard=None))
             ch['events'] = ch['events'] + ['finish']
-        ch['preamble'] = 'x = 0\ns = ""\nentries = 0\nexits = 0'
+        ch['preamble'] = 'x = 0\ns = ""\nentries = 0\nexits = 0\nbag = []'
         ch['outs'] = outs
         # same-source eventless transitions would be non-deterministic: keep at most one per state
         seen = set()
@@ -149,6 +152,12 @@ def gen_scenario(rnd, ch, idx, earlier, orc):
             return (kw, 'I send event %s with p=%d' % (ev, rnd.randint(0, 3)), None)
         if r < 0.58:
             return (kw, 'I send event %s' % ev, [('p', str(rnd.randint(0, 3)))])
+        if r < 0.66:
+            orc.acc.count('mutable_literal_parameters')
+            lit = rnd.choice(('[1, 2]', '[1, 2]', '[]', '[0]'))      # the same literal text comes back in later steps and scenarios
+            if rnd.random() < 0.5:
+                return (kw, 'I send event %s with q=%s' % (ev, lit), None)
+            return (kw, 'I send event %s' % ev, [('q', lit)])
         if r < 0.72:
             return (kw, 'I wait %s seconds' % rnd.choice(['1', '2.5', '5', '6']), None)
         if r < 0.76:
@@ -224,10 +233,15 @@ def gen_scenario(rnd, ch, idx, earlier, orc):
             elif kind == 'no event fired':
                 text = 'no event is fired'
             elif kind in ('variable equals', 'variable not equal'):
-                var = rnd.choice(['x', 'x', 'entries', 'exits', 'undefined_var'])
-                cur = it.context.get(var, 0)
-                val = cur if (want == (kind == 'variable equals')) else cur + rnd.choice((1, 2, -1))
-                text = 'variable %s %s %d' % (var, 'equals' if kind == 'variable equals' else 'does not equal', max(val, 0))
+                var = rnd.choice(['x', 'x', 'entries', 'exits', 'undefined_var', 'bag', 'bag'])
+                if var == 'bag':
+                    cur = list(it.context.get('bag', []))
+                    val = cur if (want == (kind == 'variable equals')) else (cur + [len(cur)] if rnd.random() < 0.5 or not cur else cur[:-1])
+                    text = 'variable bag %s %r' % ('equals' if kind == 'variable equals' else 'does not equal', val)
+                else:
+                    cur = it.context.get(var, 0)
+                    val = cur if (want == (kind == 'variable equals')) else cur + rnd.choice((1, 2, -1))
+                    text = 'variable %s %s %d' % (var, 'equals' if kind == 'variable equals' else 'does not equal', max(val, 0))
             elif kind in ('expression holds', 'expression not hold'):
                 x = it.context.get('x', 0)
                 pos = (kind == 'expression holds') == want
@@ -357,11 +371,11 @@ class Oracle:
             return any(e.name == m.group(1) and all(getattr(e, k, None) == v for k, v in params.items()) for e in sent) != bool(m.group(2))
         if text == 'no event is fired':
             return not sent
-        m = re.match(r'variable (\w+) (equals|does not equal) (\d+)$', text)
+        m = re.match(r'variable (\w+) (equals|does not equal) (\d+|\[.*\])$', text)
         if m:
             if m.group(1) not in it.context:
                 return False
-            return (it.context[m.group(1)] == int(m.group(3))) == (m.group(2) == 'equals')
+            return (it.context[m.group(1)] == eval(m.group(3))) == (m.group(2) == 'equals')
         m = re.match(r'expression "(.*)" (holds|does not hold)$', text)
         if m:
             env = dict(it.context)
